@@ -166,11 +166,11 @@ class JGrammar(Grammar):
             yield ['if u > 0:', '    return (a, a)'], env, 1, False
 
 
-def family_J(size: int) -> Iterator[Prog]:
+def family_J(size: int, exact: bool = False) -> Iterator[Prog]:
     g = JGrammar()
     n = 0
     for body, env, cost in g.block(frozenset(), size, {}):
-        if 'a' not in env:
+        if 'a' not in env or (exact and cost != size):
             continue
         ret = 'return (a, b)' if 'b' in env else 'return (a, a)'
         yield make_prog('J', body + [ret], f'J{cost}', deco=f'@fp.fpy(ctx={FCTX})')
@@ -202,19 +202,21 @@ def _v_wrap(body: list[str], ctx) -> list[str]:
 
 
 def family_V(tier: str) -> Iterator[Prog]:
+    quick = tier == 'quick'
     conds = V_CONDS
     # (1) two-level ladder, same arm expression in every arm, tested variable = argument / copy / phi
     subjects = [('u', []), ('a', ['a = u']), ('a', ['if v > 0:', '    a = u', 'else:', '    a = 0'])]
     for ctx in V_CTXS:
         for x, pre in subjects:
             arms = V_ARMS if x == 'u' else V_ARMS_CORE
-            c2s = conds if (x == 'u' and ctx != 'fp.MPFixedContext(-2)') else V_CONDS_CORE
-            for c1 in conds:
+            c1s = conds if x == 'u' else (V_CONDS_CORE if quick else conds)
+            c2s = conds if (x == 'u' and ctx != 'fp.MPFixedContext(-2)' and not quick) else V_CONDS_CORE
+            for c1 in c1s:
                 for c2 in c2s:
                     if c1 == c2:
                         continue
                     for arm in arms:
-                        if tier == 'quick' and not (arm in V_ARMS_CORE or (c1 in V_CONDS_CORE and c2 in V_CONDS_CORE)):
+                        if quick and arm not in V_ARMS_CORE and not (c1 in V_CONDS_CORE[:4] and c2 in V_CONDS_CORE[:4]):
                             continue
                         e = arm.format(x=x)
                         lad = [f'if {c1.format(x=x)}:', f'    r = {e}',
@@ -228,6 +230,8 @@ def family_V(tier: str) -> Iterator[Prog]:
         for x, pre in subjects[:2]:
             for c1, c2, c3 in itertools.permutations(tests3, 3):
                 for arm in ('{x}', 'logb({x})', '{x} * v'):
+                    if quick and (x == 'a') != (arm == 'logb({x})'):
+                        continue
                     e = arm.format(x=x)
                     lad = [f'if {c1.format(x=x)}:', f'    r = {e}',
                            f'elif {c2.format(x=x)}:', f'    r = {e}',
@@ -235,11 +239,11 @@ def family_V(tier: str) -> Iterator[Prog]:
                            'else:', f'    r = {e}', '    s = logb(' + x + ')']
                     body = pre + _v_wrap(lad, ctx) + [f'return (r, {x})']
                     yield make_prog('V', body, 'V-ladder3')
-    # (3) nested if (refinements must compose), if-expression, one-armed if with re-definition, while
+    # (3) nested if (refinements must compose), if-expression, one-armed if with re-definition, loops
     for ctx in (None, 'fp.REAL'):
         for c1 in conds:
-            for c2 in V_CONDS_CORE:
-                for arm in V_ARMS_CORE:
+            for c2 in (V_CONDS_CORE[:4] if quick else V_CONDS_CORE):
+                for arm in (V_ARMS_CORE[:3] if quick else V_ARMS_CORE):
                     e = arm.format(x='u')
                     nest = [f'r = {e}', f'if {c1.format(x="u")}:', f'    if {c2.format(x="u")}:', f'        r = {e}',
                             '    else:', f'        r = {e}', 'else:', f'    if {c2.format(x="u")}:', f'        r = {e}',
@@ -255,7 +259,7 @@ def family_V(tier: str) -> Iterator[Prog]:
                 yield make_prog('V', _v_wrap(redef, ctx) + ['return (r, t, a)'], 'V-redef')
                 one = ['a = u', 'r = v', f'if {c1.format(x="a")}:', f'    r = {e}', '    a = 0', f't = {e}']
                 yield make_prog('V', _v_wrap(one, ctx) + ['return (r, t, a)'], 'V-if1')
-                loop = ['a = u', 'r = v', 'k = 0', f'while k < n and {c1.format(x="a")}:', f'    r = {e}',
+                loop = ['a = u', 'r = v', 'k = 0', f'while k < n and ({c1.format(x="a")}):', f'    r = {e}',
                         '    a = a * v', '    k = k + 1', f't = {e}']
                 yield make_prog('V', _v_wrap(loop, ctx) + ['return (r, t, a)'], 'V-while')
                 forl = ['a = u', 'r = v', 'for x in us:', f'    if {c1.format(x="a")}:', f'        r = {e}',
@@ -277,7 +281,7 @@ class LGrammar(Grammar):
         self.core = core
 
     def l1_sources(self, env):
-        return ['us', 'vs'] + [v for v in self.L1_VARS if v in env]
+        return (['us'] if self.core else ['us', 'vs']) + [v for v in self.L1_VARS if v in env]
 
     def l2_sources(self, env):
         return ['uss'] + [v for v in self.L2_VARS if v in env]
@@ -296,14 +300,15 @@ class LGrammar(Grammar):
         out.append('[1, 2]')                                     # constant construction
         if not self.core:
             out.append('[u, 1]')
-        for s in l1[:3] if self.core else l1:
+        for s in l1[-1:] if self.core else l1:
             out.append(f'{s}[:]')                                # slicing (fresh spine)
             if not self.core:
                 out.append(f'{s}[1:]')
                 out.append(f'[x for x in {s}]')
         if 't' in env:
             out.append('fst(t)')                                 # tuple field
-            out.append('snd(t)')
+            if not self.core:
+                out.append('snd(t)')
         # if-expression
         if len(l1) >= 2:
             out.append(f'({l1[-1]} if u > 0 else {l1[0]})')
@@ -335,12 +340,14 @@ class LGrammar(Grammar):
         l1 = self.l1_sources(env)
         l2 = self.l2_sources(env)
         for tgt in ('xs', 'ys'):
+            if tgt == 'ys' and 'xs' not in env:
+                continue            # symmetry: the two names are interchangeable
             for e in self.l1_exprs(env, tgt):
                 if e == tgt:
                     continue
                 yield [f'{tgt} = {e}'], env | {tgt}, 1, False
         for tgt in ('xss', 'yss'):
-            if self.core and tgt == 'yss' and 'xss' not in env:
+            if tgt == 'yss' and 'xss' not in env:
                 continue
             for e in self.l2_exprs(env, tgt):
                 if e == tgt:
@@ -353,7 +360,7 @@ class LGrammar(Grammar):
         if not self.core:
             yield [f'xs, ys = ({l1[0]}, {l1[-1]})'], env | {'xs', 'ys'}, 1, False
         # element stores
-        for s in (l1 if not self.core else [v for v in l1 if v not in ('vs',)]):
+        for s in l1:
             yield [f'{s}[0] = 5'], env, 1, False
         for s2 in l2:
             yield [f'{s2}[0] = {l1[-1]}'], env, 1, False
@@ -386,9 +393,11 @@ def _l_return(env) -> str:
     return 'return (' + ', '.join(names) + ')'
 
 
-def family_L(size: int, core: bool) -> Iterator[Prog]:
+def family_L(size: int, core: bool, exact: bool = False) -> Iterator[Prog]:
     g = LGrammar(core)
     for body, env, cost in g.block(frozenset(), size, {}):
+        if exact and cost != size:
+            continue
         # `row` defined by a loop is not readable afterwards
         yield make_prog('L', body + [_l_return(env - {'row'})], f'L{cost}{"c" if core else ""}')
 
@@ -408,7 +417,7 @@ class ZGrammar(Grammar):
     def list_exprs(self, env):
         ls = self.lists(env)
         out = []
-        for s in ls:
+        for s in ([x for x in ls if x != 'vs'] if self.core else ls):
             out.append(s)
             out.append(f'{s}[:]')
             out.append(f'{s}[1:]')
@@ -435,6 +444,8 @@ class ZGrammar(Grammar):
         depth = flags.get('depth', 0)
         ls = self.lists(env)
         for tgt in ('xs', 'ys'):
+            if tgt == 'ys' and 'xs' not in env:
+                continue            # symmetry: the two names are interchangeable
             for e in self.list_exprs(env):
                 if e == tgt:
                     continue
@@ -478,9 +489,11 @@ def _z_return(env) -> str:
     return 'return ' + ' + '.join(terms)
 
 
-def family_Z(size: int, core: bool) -> Iterator[Prog]:
+def family_Z(size: int, core: bool, exact: bool = False) -> Iterator[Prog]:
     g = ZGrammar(core)
     for body, env, cost in g.block(frozenset(), size, {}):
+        if exact and cost != size:
+            continue
         yield make_prog('Z', body + [_z_return(env)], f'Z{cost}{"c" if core else ""}', helpers=True)
 
 
@@ -503,8 +516,13 @@ POOLS = {
 }
 
 
-def inputs(prog: Prog) -> list[tuple]:
+V_QUICK_V = [NAN, INF, 0.0, -3.0]      # one value per class
+
+
+def inputs(prog: Prog, tier: str = 'thorough') -> list[tuple]:
     pool = POOLS[prog.fam]
+    if tier == 'quick' and prog.fam == 'V':
+        pool = dict(pool, v=V_QUICK_V)
     return list(itertools.product(*[pool[a] for a in prog.args]))
 
 
@@ -548,22 +566,21 @@ def dec(j):
 def space(tier: str, seed: int = 0):
     """list of (label, generator factory, slice) -- slice is None (whole) or (k, m)"""
     if tier == 'quick':
-        m = 8
-        k = seed % m
         return [
             ('J<=3', lambda: family_J(3), None),
-            ('V', lambda: family_V('quick'), None),
+            ('J=4', lambda: family_J(4, True), (seed % 16, 16)),
+            ('Vquick', lambda: family_V('quick'), None),
             ('L<=2', lambda: family_L(2, False), None),
-            ('L3core', lambda: family_L(3, True), None),
+            ('L=3core', lambda: family_L(3, True, True), None),
             ('Z<=2', lambda: family_Z(2, False), None),
-            ('Z3core', lambda: family_Z(3, True), (k, m)),
+            ('Z=3core', lambda: family_Z(3, True, True), (seed % 8, 8)),
         ]
     return [
         ('J<=4', lambda: family_J(4), None),
         ('V', lambda: family_V('thorough'), None),
         ('L<=3', lambda: family_L(3, False), None),
         ('Z<=2', lambda: family_Z(2, False), None),
-        ('Z3core', lambda: family_Z(3, True), None),
+        ('Z=3core', lambda: family_Z(3, True, True), None),
     ]
 
 
